@@ -1,7 +1,8 @@
 /* kdiff - framework + main of the C07 kernel differential harness (see kdiff.h).
  *
- * usage: kdiff --seed S --n N [--shard a/b] [--only PTR] [--case I] [--variant FN] [--exact] [--list]
+ * usage: kdiff --seed S --n N [--shard a/b] [--after PTR] [--only PTR] [--case I] [--variant FN] [--exact] [--list]
  * output (stdout, one record per line):
+ *   B ptr=<p>                                             (kernel started; a process that dies names the culprit)
  *   K ptr=<p> file=<f> handler=<h> cases=<n> skipped=<n> nonconst=<n> variants=<fn>:<flag>:<compared>,...
  *   U ptr=<p> reason=<no-handler|signature|no-variant-on-host> variants=...
  *   M kind=<mismatch|retval|junk-write> ptr=<p> fn=<fn> case=<i> what="<text>" args="<tuple>"
@@ -12,7 +13,6 @@
 #include <signal.h>
 #include <stdio.h>
 #include <stdlib.h>
-#include <sys/wait.h>
 #include <unistd.h>
 
 #include "aom_dsp_rtcd.h"
@@ -479,8 +479,8 @@ int main(int argc, char **argv) {
     v_drop_sys_nice();
     uint64_t    seed = 1;
     long        n = 200, only_case = -1;
-    int         shard_a = 0, shard_b = 1, list = 0, exact = 0, verbose = 0, nofork = 0;
-    const char *only = NULL, *only_variant = NULL;
+    int         shard_a = 0, shard_b = 1, list = 0, exact = 0, verbose = 0;
+    const char *only = NULL, *only_variant = NULL, *after = NULL;
     for (int i = 1; i < argc; i++) {
         if (!strcmp(argv[i], "--seed") && i + 1 < argc) seed = strtoull(argv[++i], 0, 10);
         else if (!strcmp(argv[i], "--n") && i + 1 < argc) n = atol(argv[++i]);
@@ -491,7 +491,7 @@ int main(int argc, char **argv) {
         else if (!strcmp(argv[i], "--exact")) exact = 1;
         else if (!strcmp(argv[i], "--list")) list = 1;
         else if (!strcmp(argv[i], "-v")) verbose = 1;
-        else if (!strcmp(argv[i], "--nofork")) nofork = 1;
+        else if (!strcmp(argv[i], "--after") && i + 1 < argc) after = argv[++i];
         else {
             fprintf(stderr, "kdiff: bad argument %s\n", argv[i]);
             return 2;
@@ -541,6 +541,10 @@ int main(int argc, char **argv) {
         idx++;
         if (only && strcmp(only, e->ptr)) continue;
         if (!only && (idx % shard_b) != shard_a) continue;
+        if (after) { /* resume a shard behind the kernel that crashed the previous process */
+            if (!strcmp(after, e->ptr)) after = NULL;
+            continue;
+        }
         int nv = 0, nrun = 0;
         for (int vi = 1; e->v[vi].name; vi++) {
             nv++;
@@ -557,20 +561,7 @@ int main(int argc, char **argv) {
             printf("\n");
             continue;
         }
-        fflush(stdout);
-        pid_t pid = nofork ? 0 : fork();
-        if (pid < 0) {
-            printf("E fork failed\n");
-            return 2;
-        }
-        if (pid > 0) { /* parent: a crash inside one kernel must not take the others down */
-            int status = 0;
-            waitpid(pid, &status, 0);
-            if (WIFSIGNALED(status)) printf("X ptr=%s fn=? case=-1 sig=%d args=\"(child killed)\"\n", e->ptr, WTERMSIG(status));
-            else if (WIFEXITED(status) && WEXITSTATUS(status) != 0 && WEXITSTATUS(status) != 70)
-                printf("E child for %s exited with %d\n", e->ptr, WEXITSTATUS(status));
-            continue;
-        }
+        printf("B ptr=%s\n", e->ptr);
         EntryStats st;
         memset(&st, 0, sizeof(st));
         k->e = e;
@@ -584,10 +575,6 @@ int main(int argc, char **argv) {
                    vi < 16 ? st.nonconst_cmp[vi] : 0, vi < 16 ? st.bad[vi] : 0);
         printf("\n");
         g_k.e = NULL;
-        if (!nofork) {
-            fflush(stdout);
-            _exit(0);
-        }
     }
     printf("Z done\n");
     return 0;
